@@ -11,7 +11,6 @@ import (
 	"regexp"
 	"runtime"
 	"runtime/debug"
-	"runtime/pprof"
 	"strings"
 	"syscall"
 	"time"
@@ -252,7 +251,7 @@ func runHistory(h History) (rep Report) {
 	setPhase("read-back: entries kept beside the children (Augments, Augmented, Deviations, Deviate, Uses, groupings)")
 	main := w.n
 	w.sideMode, w.mainNodes = true, main
-	rb.findLeft = 4
+	rb.findLeft = 2
 	for len(rb.side) > 0 {
 		e := rb.side[len(rb.side)-1]
 		rb.side = rb.side[:len(rb.side)-1]
@@ -405,7 +404,7 @@ func (w *walker) walk(e *yang.Entry, depth int) (height int) {
 		}
 	}
 	// the accessors that write what is below e, where that is not deep
-	if full && height <= writeHeight {
+	if full && (height <= writeLowHeight || (depth == 0 && height <= writeHeight)) {
 		curEntry.Store(e)
 		w.rb.entryWriters(e)
 	}
@@ -632,12 +631,6 @@ func childMain() {
 		if err := os.Chdir(dir); err != nil {
 			fmt.Fprintln(os.Stderr, "child: chdir:", err)
 			os.Exit(3)
-		}
-	}
-	if pf := os.Getenv("VERIF_C01_PROF"); pf != "" {
-		if f, err := os.Create(pf); err == nil {
-			pprof.StartCPUProfile(f)
-			go func() { time.Sleep(20 * time.Second); pprof.StopCPUProfile(); f.Close() }()
 		}
 	}
 	debug.SetMaxStack(512 << 20)
